@@ -84,4 +84,8 @@ def cacheExec {K V : Type} [DecidableEq K] (comp : K → Option V) :
     let r := callStep comp g.2 (g.1 i)
     cacheExec comp sch (fun j => if j = i then r.1 else g.1 j, r.2)
 
+/-- every stored regexp is the compilation of its key -/
+def Coherent {K V : Type} (comp : K → Option V) (cache : K → Option V) : Prop :=
+  ∀ k v, cache k = some v → comp k = some v
+
 end Gojq.Conc
